@@ -101,6 +101,17 @@ def d_implies(E, fv, st, node, prog):
     return SBool(z3.Implies(a, b))
 
 
+_QNODE_IDS = {}
+
+
+def _qnode_id(lam):
+    """a small unique number per quantifier source node (the AST lives as long as the contract database)"""
+    k = _QNODE_IDS.get(id(lam))
+    if k is None:
+        k = _QNODE_IDS[id(lam)] = (len(_QNODE_IDS), lam)  # keep a reference: the id cannot be recycled
+    return k[0]
+
+
 def _bind_lambda(fv, st, lam):
     if not isinstance(lam, ast.Lambda):
         _err("quantifier needs a lambda")
@@ -110,7 +121,7 @@ def _bind_lambda(fv, st, lam):
     if qd is None:
         qd = fv._qdepth = {}
     depth = qd.get(id(lam), 0)
-    consts = [z3.Int("%s?q%x_%d" % (n, id(lam) & 0xFFFFFF, depth)) for n in names]
+    consts = [z3.Int("%s?q%d_%d" % (n, _qnode_id(lam), depth)) for n in names]
     return names, consts
 
 
@@ -206,7 +217,7 @@ def d_forall_arr(ndim):
             qd = fv._qdepth = {}
         depth = qd.get(id(lam), 0)
         qd[id(lam)] = depth + 1
-        consts = [z3.Const("%s?q%x_%d" % (n, id(lam) & 0xFFFFFF, depth), arr_sort(I, ndim)) for n in names]
+        consts = [z3.Const("%s?q%d_%d" % (n, _qnode_id(lam), depth), arr_sort(I, ndim)) for n in names]
         s = st.fork()
         s.assumes = st.assumes
         for n, c in zip(names, consts):
